@@ -198,7 +198,6 @@ package datamodel
 //@   ensures[C14] fresh(r.segments) && len(r.segments) == len(p.segments) + 1 && r.segments[len(p.segments)] == ps
 //@   ensures[C14] forall i mathint :: 0 <= i && i < len(p.segments) ==> r.segments[i] == p.segments[i] && p.segments[i] == old(p.segments[i])
 //@ func (Path).Join(p2) (r)
-//@   requires len(p.segments) + len(p2.segments) <= 4611686018427387904
 //@   assigns nothing
 //@   ensures[C14] fresh(r.segments) && len(r.segments) == len(p.segments) + len(p2.segments)
 //@   ensures[C14] forall i mathint :: 0 <= i && i < len(p.segments) ==> r.segments[i] == p.segments[i] && p.segments[i] == old(p.segments[i])
